@@ -84,6 +84,11 @@ class DType:
 class SV:
     """Symbolic scalar / generic tensor element."""
 
+    def __iter__(self):
+        from .interp import Untranslatable
+
+        raise Untranslatable("iteration over a symbolic SV outside a cut loop (Python would fall back to the unbounded __getitem__ protocol)")
+
     __slots__ = ("e", "elem", "tags")
     __array_priority__ = 1000
 
@@ -314,6 +319,11 @@ def ite(c, a, b):
 class SumT:
     """Σ over the (symbolic) index set of a generic-element tensor."""
 
+    def __iter__(self):
+        from .interp import Untranslatable
+
+        raise Untranslatable("iteration over a symbolic SumT outside a cut loop (Python would fall back to the unbounded __getitem__ protocol)")
+
     __slots__ = ("t",)
 
     def __init__(self, t):
@@ -459,6 +469,11 @@ class SymSeq:
 class SymList:
     """A Python list of reals with symbolic length: (len: Int, arr: Array Int -> Real).  Mutable (append)."""
 
+    def __iter__(self):
+        from .interp import Untranslatable
+
+        raise Untranslatable("iteration over a symbolic SymList outside a cut loop (Python would fall back to the unbounded __getitem__ protocol)")
+
     def __init__(self, n=None, arr=None, name="lst"):
         self.n = z3.IntVal(0) if n is None else n
         self.arr = z3.K(I, z3.RealVal(0)) if arr is None else arr
@@ -538,6 +553,11 @@ class SymList:
 class Opaque:
     """An opaque object of a dependency (optimizer, opt_state, static pytree ...): no property is assumed."""
 
+    def __iter__(self):
+        from .interp import Untranslatable
+
+        raise Untranslatable("iteration over a symbolic Opaque outside a cut loop (Python would fall back to the unbounded __getitem__ protocol)")
+
     def __init__(self, name):
         object.__setattr__(self, "_name", name)
 
@@ -558,6 +578,11 @@ class SArr:
     """1-D array of reals with symbolic length n (z3 Array Int -> Real).  Integer indexing follows JAX exactly:
     negative indices wrap, out-of-range indices are clamped; every access also records the side condition
     0 <= i < n (NumPy/JAX wrap or clamp silently, which is never what a contract wants)."""
+
+    def __iter__(self):
+        from .interp import Untranslatable
+
+        raise Untranslatable("iteration over a symbolic SArr outside a cut loop (Python would fall back to the unbounded __getitem__ protocol)")
 
     def __init__(self, n, arr, name="arr"):
         self.n, self.arr, self.name = n, arr, name
@@ -692,6 +717,11 @@ class SymTuple:
 
 class SymRange:
     """range(n) with symbolic n: only indexing (negative indices wrap, IndexError out of range) and len"""
+
+    def __iter__(self):
+        from .interp import Untranslatable
+
+        raise Untranslatable("iteration over a symbolic SymRange outside a cut loop (Python would fall back to the unbounded __getitem__ protocol)")
 
     def __init__(self, n):
         self.n = lift(n)
